@@ -31,6 +31,7 @@ verus! {
 //@part reply_full
 //@part reply_types_min2
 //@part evalarms
+//@part funcs
 //@autoslots
 } // verus!
 fn main() {}
